@@ -1,2 +1,44 @@
-(* C01 — placeholder until the scanner theorems are pinned. *)
-From JV Require Import Bytes Tables TextTok TextTape.
+(* C01 — Text tape mirrors the document regardless of layout.
+   Statements only; every proof is [exact lemma].  The model functions (TextTape.v) are the ones
+   the correspondence check runs against text/tape.rs; the document type, `flatten`, `render`
+   and the layout predicates are TextDoc.v (Coq counterpart of props/textdoc.py). *)
+From JV Require Import Bytes Tables TextTok TextTape TextDoc.
+From JV.proofs Require Import TextScanProofs.
+Open Scope nat_scope.
+
+(* 1. the byte set tested by the SSE2 compare chain of split_at_scalar (operands regenerated from
+   text/tape.rs) is exactly the boundary class of data.rs CHARACTER_CLASS (regenerated too) *)
+Theorem C01_simd_set_eq_class : forall b, In b simd_boundary_bytes <-> is_boundary b = true.
+Proof. exact simd_set_eq_class. Qed.
+Print Assumptions C01_simd_set_eq_class.
+
+(* 2. split_at_scalar = cut at the first boundary byte (at least one byte), for every length and
+   every position of the boundary relative to the 16-byte blocks *)
+Theorem C01_split_at_scalar_spec : forall d, d <> [] ->
+  let i := Nat.max 1 (match find_idx is_boundary d 0 with Some i => i | None => length d end) in
+  split_at_scalar d = Ok (firstn i d, skipn i d).
+Proof. exact split_at_scalar_spec. Qed.
+Print Assumptions C01_split_at_scalar_spec.
+
+(* 3. parse_quote_scalar = the escape-aware byte scan; the block walk never changes its answer *)
+Theorem C01_quote_scalar_spec : forall h,
+  parse_quote_scalar (34%N :: h) =
+  match tq_scan h 0 with
+  | Some i => Ok (firstn i h, skipn (S i) h)
+  | None => Err E_TextErr
+  end.
+Proof. intros h. exact (quote_scalar_spec 34%N h). Qed.
+Print Assumptions C01_quote_scalar_spec.
+
+(* 4. skip_ws_t skips exactly a gap (whitespace bytes, ';' and complete comments) and stops at the
+   first significant byte *)
+Theorem C01_skip_ws_spec : forall gap rest, gap_ok gap ->
+  skip_ws_t (gap ++ rest) = skip_ws_t rest /\
+  (forall c r, rest = c :: r -> is_ws_t c = false -> c <> 35%N -> skip_ws_t (gap ++ rest) = Some rest).
+Proof. exact skip_ws_spec. Qed.
+Print Assumptions C01_skip_ws_spec.
+
+(* non-vacuity: a gap with a comment containing structural bytes, CRLF, tabs and ';' *)
+Example C01_gap_nonvacuous :
+  gap_ok [32; 35; 97; 123; 34; 61; 35; 10; 13; 10; 9; 59; 32]%N.
+Proof. apply gap_okb_sound. reflexivity. Qed.
